@@ -44,6 +44,10 @@ class ProbeCtx(A.AsyncContext):
         pass
 
 
+class _ClientFailure(Exception):
+    pass
+
+
 class _World(object):
     def __init__(self, case):
         self.case = case
@@ -289,7 +293,14 @@ class C12(object):
                     script.append(["x", cs()])
                 else:
                     script.append(["b", rng.randint(0, 2)])
+            if rng.random() < 0.12:
+                # the client fails for good (its held calls stay in flight; others may ask for them)
+                script.insert(rng.randint(1, len(script)), ["f"])
             clients.append(script)
+        if rng.random() < 0.04:
+            # very wide fan-out: hundreds of different keys in flight at once, then the first again
+            f, i, _, b = rng.choice(keyspace)
+            clients[rng.randrange(len(clients))].insert(0, ["w", rng.choice([40, 257, 300, 520]), [f, i, 10, b, "pos"]])
         return {"clients": clients, "prio": gen.gen_prio(rng, 3), "await_reentrant": rng.random() < 0.7,
                 "probe_ctx": rng.random() < 0.4}
 
@@ -329,13 +340,33 @@ class C12(object):
                         W.fail_externally(st[1])
                     elif op == "b":
                         yield W.item(st[1], "c%d" % ci)
+                    elif op == "f":
+                        raise _ClientFailure("client%d" % ci)
+                    elif op == "w":
+                        f, i, a0, b, form = st[2]
+                        ts = [W.call("client%d" % ci, [f, i, a0 + j, b, form]) for j in range(st[1])]
+                        again = W.call("client%d" % ci, [f, i, a0, b, "kw"])
+                        W.probe("wide_fanout_%d" % (st[1] // 100 * 100))
+                        try:
+                            vals = yield ts + [again]
+                        except SimError as e:
+                            vals = ("E", e.tag)
+                        got.append(len(vals))
                 except SimError as e:
                     got.append(("E", e.tag))
             return got
 
         clients = []
         for ci, script in enumerate(case.get("clients", [])):
-            clients.append(A.asynq()(lambda ci=ci, script=script: (yield from client(ci, script))))
+            inner = A.asynq()(lambda ci=ci, script=script: (yield from client(ci, script)))
+
+            def guarded(inner=inner):
+                try:
+                    return (yield inner.asynq())
+                except _ClientFailure:
+                    W.probe("client_failed")
+                    return "client-failed"
+            clients.append(A.asynq()(guarded))
 
         @A.asynq()
         def root():
